@@ -389,11 +389,42 @@ def a64Loads (f : Frame) : List Instr :=
 
 def a64Bti (f : Frame) : List Instr := if f.hasIBP then [Instr.nop "bti #3"] else []
 
+/-- the register that carries the stack-argument base / the unaligned `sp` (`sa_reg` of `emit_prolog`) -/
+def a64HasSaReg (f : Frame) : Bool := f.saRegId != 0xFF && f.saRegId != 31
+def a64SaReg (f : Frame) : Nat := if a64HasSaReg f then f.saRegId else 29
+
+/-- `mov sa_reg, sp` after the stores (x29 already holds `sp` when the frame pointer is preserved) -/
+def a64SaMov (f : Frame) : List Instr :=
+  if a64HasSaReg f && !(f.hasFP && f.saRegId == 29) then [Instr.mov (a64SaReg f) 31] else []
+
+/-- 16-byte aligned part of `da_offset`: `sp` is lowered in two steps around the store to the DA slot -/
+def a64DaBase (f : Frame) : Nat := f.daOff &&& (2 ^ 32 - 1 - 15)
+
+/-- everything after the stores (fixes/C07-8.patch: dynamic alignment and SA register on AArch64) -/
+def a64PrologTail (f : Frame) : Option (List Instr) :=
+  if f.hasDA then
+    if !a64HasSaReg f then none else
+    let andI := Instr.and3 31 (a64SaReg f) (-(toI32 f.finalAlign))
+    if f.daOff ≠ invalidOff then
+      (a64Adjust (u32 (f.stackAdj + 2 ^ 32 - a64DaBase f)) (Instr.sub 31)).bind fun s1 =>
+        (a64Adjust (a64DaBase f) (Instr.sub 31)).map fun s2 =>
+          [andI] ++ s1 ++ [Instr.stp 0 8 (a64SaReg f) none 31 (toI32 (f.daOff &&& 15)) .fixed] ++ s2
+    else (a64Adjust f.stackAdj (Instr.sub 31)).map fun s1 => [andI] ++ s1
+  else a64Adjust f.stackAdj (Instr.sub 31)
+
 def a64Prolog (f : Frame) : Option (List Instr) :=
-  (a64Adjust f.stackAdj (Instr.sub 31)).map fun adj => a64Bti f ++ (a64Stores f ++ adj)
+  (a64PrologTail f).map fun tail => a64Bti f ++ (a64Stores f ++ (a64SaMov f ++ tail))
+
+/-- restoring `sp` to the save area in the epilog -/
+def a64EpilogHead (f : Frame) : Option (List Instr) :=
+  if f.hasDA && f.hasFP then some [Instr.mov 31 29]
+  else if f.hasDA && f.daOff != invalidOff then
+    (a64Adjust (a64DaBase f) (Instr.add 31)).map fun s1 =>
+      s1 ++ [Instr.ldp 0 8 f.saRegId none 31 (toI32 (f.daOff &&& 15)) .fixed, Instr.mov 31 f.saRegId]
+  else a64Adjust f.stackAdj (Instr.add 31)
 
 def a64Epilog (f : Frame) : Option (List Instr) :=
-  (a64Adjust f.stackAdj (Instr.add 31)).map fun adj => adj ++ (a64Loads f ++ [Instr.retReg 30])
+  (a64EpilogHead f).map fun head => head ++ (a64Loads f ++ [Instr.retReg 30])
 
 def prolog (f : Frame) : Option (List Instr) :=
   match f.arch with
